@@ -54,6 +54,11 @@ CHECKS = {
             "multiset of control-variable assignments, test/if correspondence, hygiene, unparse+compile)",
             "A static census covers code on paths no input exercises; inputs are enumerated, not sampled.",
             "census is static: it does not establish that the emitted code is placed on the right path (C07 does)"),
+    "C12": ("stateless depth-first exploration over set-iteration orders: every set of the library is replaced (import-time AST rewriting) by a "
+            "set whose iteration order / pop choice the explorer picks, deviation-bounded; plus real PYTHONHASHSEED sub-process runs bound to it",
+            "The hash-seed nondeterminism is owned by the explorer instead of hoped for: every order of every iterated set (within the deviation "
+            "bound) is executed and the exact canonical dump compared.",
+            "hash randomisation acts only through set iteration order; deviation bound d <= 2"),
     "C13": ("exhaustive enumeration of ALL small digraphs (ordered target lists incl. duplicates, self loops, external targets) and all "
             "subsets; every query compared with a definition-level reference",
             "Queries are pure functions of a small graph: the input space up to the bound is enumerated completely.",
